@@ -347,3 +347,22 @@ CHECKS["C05"] = dict(
                  [inst("internal/rng", "VHSeed", {"N": n}, workers=16, must_reach=["accepted"]) for n in (0, 1, 2, 3, 4, 5)] + _lexer_thor),
     assumptions=["FromReader's contract: an error, or a dialogue with at least one node"],
 )
+
+# ---------------------------------------------------------------- C16
+_c16 = [inst("root", "VHBridgeFunction", {"SIG": i}, solver="cvc5", workers=2) for i in range(38)] + \
+       [inst("root", "VHBridgeCommand", {"SIG": i}, solver="cvc5", workers=1) for i in range(12)]
+CHECKS["C16"] = dict(
+    level="model_checking",
+    claim="The real bridge (newYarnSpinnerFunction, createInputConverter, createVariadicInputConverter, checkFunctionOutputParameters, "
+          "getTreeValue, argConverterByGoalKind, newYarnSpinnerCommand, checkCommandOutputParameters, isTypeErrChan) runs symbolically on the "
+          "engine's reflect intrinsics for a finite list of 38 function and 12 command values (0..3 parameters and variadic tails over int, "
+          "int8..int64, float32, float64, bool, string, named variants, struct, slice, uint; 0..3 results over the same plus error, a named "
+          "error type, chan error, <-chan error; non-functions and nil): registration accepts exactly the bridgeable ones without panicking; for "
+          "each accepted one a symbolic argument list (0..4 arguments of symbolic kind and payload, all doubles) either invokes the function "
+          "exactly once with the converted arguments in order and converts result/error back, or is an error without invoking it; no panic path.",
+    note="Go types cannot be solver variables: the signature space is a finite list written in the harness (enumerated, not symbolic). "
+         "reflect's semantics (arity/assignability rules of Value.Call, ConvertibleTo, Convert) are supplied by the engine from go/types, not "
+         "reflect's implementation. Out-of-range float->small-int conversions follow amd64.",
+    instances=dict(quick=_c16, thorough=_c16),
+    assumptions=["signatures outside the list are outside the claim"],
+)
